@@ -14,6 +14,7 @@ import (
 	"strings"
 	"testing"
 	"time"
+	_ "time/tzdata" // zones of the C04 plans, whatever the machine has installed
 
 	"github.com/lindb/common/pkg/logger"
 	"go.uber.org/zap/zapcore"
